@@ -92,9 +92,11 @@ def run_configs(ctx, module, harness_bin, configs, actions, what_prefix, harness
         ctx.cov.setdefault("programs", {})[label] = {"transitions_printed": total,
                                                       "programs_replayed": kept,
                                                       "steps_compared": rep["checks"]}
-        with open(cases) as f:
-            first = f.readline()
-            ctx.sample({"cfg": cfg, "program": json.loads(first)})
+        with open(cases) as f:         # a program from the middle of the file as sample
+            line = ""
+            for _ in range(kept // 2 + 1):
+                line = f.readline()
+            ctx.sample({"cfg": cfg, "program": json.loads(line)})
         report(ctx, rep, cfg, args, what_prefix)
         if ctx.violations:
             return
